@@ -102,7 +102,7 @@ def gen_rules(rng: random.Random, depth: int = 0, max_depth: int = 3, width=(1, 
 
 
 def raw_rule(r: dict) -> str:
-    s = ("!" if r["ign"] else "") + r["pat"]
+    s = ("!" if r["ign"] else "") + ("(?i)" if r.get("ic") and r.get("icform") == "inline" else "") + r["pat"]
     if r["ign"]:
         return s
     if r["glob"]:
@@ -117,6 +117,11 @@ def raw_rule(r: dict) -> str:
         s += " %parent"
     if r["force_commit"]:
         s += " %force_commit"
+    # optional keys (C03X); absent = today's behaviour
+    if r.get("ic") and r.get("icform", "param") == "param":
+        s += " %ignore_case"
+    if r.get("ml"):
+        s += " %multiline"
     return s
 
 
@@ -143,7 +148,10 @@ def coq_attrs(r: dict) -> str:
     parent = r["parent"] or bool(r["kids"])
     if r["ign"]:
         return f"(Attrs {cstr(r['pat'])} LDefault DDefault {cbool(bool(r['kids']))} false)"
-    return f"(Attrs {cstr(r['pat'])} {LOGIC_COQ[logic]} {dl} {cbool(parent)} {cbool(r['force_commit'])})"
+    # optional key "ic" (C03X): the ignore_case parameter reaches the matcher as the inline flag "(?i)",
+    # which compile_row_regexp treats exactly like flags=re.IGNORECASE
+    pat = ("(?i)" if r.get("ic") else "") + r["pat"]
+    return f"(Attrs {cstr(pat)} {LOGIC_COQ[logic]} {dl} {cbool(parent)} {cbool(r['force_commit'])})"
 
 
 def coq_prule(r: dict) -> str:
@@ -477,3 +485,19 @@ def diff_ops(d: list, acc=None) -> set:
         acc.add(n["op"])
         diff_ops(n["kids"], acc)
     return acc
+
+
+# ------------------------------------------------------------------ C03X: %ignore_case / %multiline flags
+
+def coq_flags(rules: list[dict]) -> str:
+    """raw_rule -> (ignore_case, multiline) for every rule of a structured rulebook that sets one of the
+    optional keys "ic" / "ml" (Model/DiffX.v: fl_of)"""
+    acc: dict = {}
+
+    def walk(rs):
+        for r in rs:
+            if not r["ign"] and (r.get("ic") or r.get("ml")):
+                acc[raw_rule(r)] = (bool(r.get("ic")), bool(r.get("ml")))
+            walk(r["kids"])
+    walk(rules)
+    return clist(cpair(cstr(k), cpair(cbool(i), cbool(m))) for k, (i, m) in acc.items())
